@@ -20,7 +20,7 @@ RULE = (
     "Per case the same three points are evaluated as single vectors, as a 1xV batch, as a 3-row batch, in a different "
     "order on a used evaluator, and through the functions+gradients path; all must agree with each other and with the "
     "reference (configured or separately computed filter weights, failed->0, renormalize, mean / sample stddev). "
-    "Trivial: no (point,function) pair has a defined value (no positive-weight success, stddev with <2 positive "
+    "Plus values with a common offset of 2^16 for the smallest shapes, and ONE ensemble of 70 realizations evaluated five times on the same evaluator with single failures at indices below and above 64. Trivial: no (point,function) pair has a defined value (no positive-weight success, stddev with <2 positive "
     "weights, filter selects nothing, fewer successes than realization_min_success)."
 )
 ASSUMPTIONS = [
@@ -56,6 +56,9 @@ def table(n_real: int, n_fun: int, variant: int, seed: int) -> np.ndarray:
     vals = ((base * rng_mul) % 32) * 0.25 - 3.0 + base * 0.015625
     if (variant + seed) % 2:
         vals = vals[:, ::-1, :] * 0.5 + 1.0
+    if variant >= 100:
+        # values that share a large common offset (exactly representable): the spread, not the offset, decides a stddev
+        vals = vals + 65536.0
     return np.ascontiguousarray(vals)
 
 
@@ -298,8 +301,56 @@ def judge(case: dict[str, Any]) -> Judgement:
     return j
 
 
+def judge_large(case: dict[str, Any]) -> Judgement:
+    """ONE ensemble far beyond the enumerated sizes (70 realizations, mean and stddev of one objective each), evaluated
+    four times on the same evaluator with different single failures, incl. realizations with an index above 64."""
+    from ropt.ensemble_evaluator import EnsembleEvaluator
+    from ropt.results import FunctionResults
+
+    j = Judgement()
+    R = 70
+    weights = [1.0 + (i % 5) for i in range(R)]
+    config = validate({
+        "variables": {"initial_values": [0.0]},
+        "realizations": {"weights": weights, "realization_min_success": 1},
+        "objectives": {"weights": [1.0, 1.0], "function_estimators": [0, 1]},
+        "function_estimators": [{"method": "mean"}, {"method": "stddev"}],
+        "gradient": {"number_of_perturbations": 1, "perturbation_magnitudes": 0.001},
+    })
+    values = np.array([[((7 * r) % 32) * 0.25 - 3.0 + r * 0.015625, ((11 * r) % 16) * 0.5 + 1.0] for r in range(R)])
+    failing = [{65}, {66}, {3, 69}, set(), {64}]
+    state = {"call": 0}
+
+    def fn(x: np.ndarray, r: int) -> np.ndarray:
+        return np.where(r in failing[state["call"]], np.nan, values[r])
+
+    manager, _ = make_manager()
+    ens = EnsembleEvaluator(config, None, TableEvaluator(fn, 2, 0), manager)
+    cw = np.asarray(config.realizations.weights)
+    for k in range(len(failing)):
+        state["call"] = k
+        (result,) = [item for item in ens.calculate(np.array([float(k)]), compute_functions=True, compute_gradients=False) if isinstance(item, FunctionResults)]
+        failed = np.array([r in failing[k] for r in range(R)])
+        w = ref.norm_weights(cw, failed)
+        expected = [ref.estimate("mean", np.where(failed, 0.0, values[:, 0]), w), ref.estimate("stddev", np.where(failed, 0.0, values[:, 1]), w)]
+        observed = list(np.asarray(result.functions.objectives, dtype=np.float64))
+        if not np.array_equal(np.asarray(result.realizations.failed_realizations), failed):
+            j.fail("large-ensemble:failed-flags", call=k, expected=sorted(failing[k]))
+        for f, name in enumerate(("mean", "stddev")):
+            if not close(observed[f], expected[f], 1e-9):
+                j.fail(f"large-ensemble:value-mismatch:{name}", call=k, failing=sorted(failing[k]), observed=observed[f], expected=expected[f])
+    j.transitions = len(failing)
+    j.outcome = "large-ensemble"
+    return j
+
+
 def shards(tier: str, seed: int) -> list[dict[str, Any]]:
-    out: list[dict[str, Any]] = []
+    out: list[dict[str, Any]] = [{"kind": "large", "tier": tier, "seed": seed}]
+    # values with a large common offset, for the smallest shapes
+    for R in (2, 3):
+        for wname in ("uniform", "ramp"):
+            out.append({"R": R, "n_obj": 1, "n_con": 1, "ow": [1.0], "weights": wname, "variant": 100,
+                        "emaps": list(itertools.product((0, 1), repeat=2)), "seed": seed, "tier": tier, "fset": "obj"})
     rmax, fmax = (3, 3) if tier == "quick" else (4, 4)
     variants = (0,)
     for R in range(1, rmax + 1):
@@ -325,6 +376,10 @@ def shards(tier: str, seed: int) -> list[dict[str, Any]]:
 
 def run_shard(shard: dict[str, Any]) -> core.ShardResult:
     rec = Recorder(shard)
+    if shard.get("kind") == "large":
+        case = {"kind": "large"}
+        rec.add(("large",), case, judge_large(case))
+        return rec.finish()
     R, n_obj, n_con = shard["R"], shard["n_obj"], shard["n_con"]
     F = n_obj + n_con
     for emap in shard["emaps"]:
@@ -345,6 +400,8 @@ def run_shard(shard: dict[str, Any]) -> core.ShardResult:
 
 
 def run_case(case: dict[str, Any]) -> Judgement:
+    if case.get("kind") == "large":
+        return judge_large(case)
     return judge(case)
 
 
